@@ -245,7 +245,7 @@ pub fn run(shard: &Shard) -> i32 {
             let h = random_history(rng, len);
             with_acc(|a| { judge(&h, a, false); a.bump("random_histories", 1); a.bump("random_history_operations", h.len() as u64); });
         } else {
-            let p = Profile { depth_free_bias: true, long_arcs_only: rng.chance(1, 3), small: rng.chance(1, 3), ..Default::default() };
+            let p = Profile { depth_free_bias: true, long_arcs_only: rng.chance(1, 3), small: rng.chance(1, 3), medium_share: 1, ..Default::default() };
             let spec = random_spec(rng, &p);
             with_family!(spec.family, solver_level, &spec);
         }
